@@ -38,4 +38,6 @@ def main(ck):
     if ck.cargo_build(BINS):
         cases = ck.harness("c03", ["helpers"])
         ck.correspond("helpers", "drv_c03", cases)
+        cases = ck.harness("c03", ["rvb"])
+        ck.correspond("rvb-updates", "drv_c03", cases)
     return ck.finish(RULE)
